@@ -292,7 +292,10 @@ class ZukoFlow(BaseTorchFlow):
     def forward(self, x, xp=torch_api):
         x = torch.as_tensor(x, dtype=self.dtype, device=self.device)
         x_prime, log_j_rescale = self.rescale(x)
-        z, log_abs_det_jacobian = self._flow().transform.call_and_ladj(x_prime)
+        with torch.no_grad():
+            z, log_abs_det_jacobian = self._flow().transform.call_and_ladj(
+                x_prime
+            )
         if is_numpy_namespace(xp):
             # Convert to numpy namespace if needed
             z = z.detach().numpy()
